@@ -1,31 +1,39 @@
 #!/usr/bin/env python3
 """Dev-time helper: re-run every stored seeded change against the checks that are recorded as catching it and report the ones that
-are no longer caught. Applies each patch to /repo and always restores it. usage: regress_seeds.py [id ...]"""
-import glob, json, os, re, subprocess, sys
+are no longer caught. Works on a scratch git worktree of /repo (VERIF_REPO / VERIF_WORK / VERIF_EVIDENCE point the checks at it), so
+it can run while /repo itself is used; the worktree is removed at the end. usage: regress_seeds.py [id ...]"""
+import glob, json, os, re, shutil, subprocess, sys
 ids = sys.argv[1:] or sorted(os.path.basename(os.path.dirname(p)) for p in glob.glob("/verif/seeded/*/meta.json"))
-if subprocess.run(["git", "-C", "/repo", "status", "--porcelain"], capture_output=True, text=True).stdout.strip():
-    sys.exit("/repo is not clean")
+WT, WORK, EV = "/tmp/regress_repo", "/tmp/regress_work", "/tmp/regress_evidence"
+subprocess.run(["git", "-C", "/repo", "worktree", "remove", "--force", WT], capture_output=True)
+subprocess.run(["git", "-C", "/repo", "worktree", "add", "--detach", WT, "HEAD", "-q"], check=True)
+env = dict(os.environ, VERIF_REPO=WT, VERIF_WORK=WORK, VERIF_EVIDENCE=EV)
 bad = []
-for sid in ids:
-    m = json.load(open(f"/verif/seeded/{sid}/meta.json"))
-    txt = " ; ".join(m.get("caught_by") or [])
-    checks = sorted(set(re.findall(r"\b(C\d\d) [a-z]+\.[a-z-]+", txt))) or [m["property"]]
-    patch = f"/verif/seeded/{sid}/patch.diff"
-    r = subprocess.run(["git", "-C", "/repo", "apply", patch], capture_output=True, text=True)
-    if r.returncode != 0:
-        print(f"{sid}: patch no longer applies ({r.stderr.strip()[:100]})", flush=True)
-        bad.append((sid, "apply"))
-        continue
-    try:
-        res = {}
-        for c in checks:
-            p = subprocess.run(["/verif/vcheck", c], capture_output=True, text=True)
-            res[c] = p.returncode
-        ok = any(v == 1 for v in res.values())
-        print(f"{sid}: {res} {'caught' if ok else 'NOT CAUGHT'}", flush=True)
-        if not ok:
-            bad.append((sid, res))
-    finally:
-        subprocess.run(["git", "-C", "/repo", "checkout", "-q", "--", "."])
-        subprocess.run(["git", "-C", "/repo", "clean", "-qfd", "--", "."])
+try:
+    for sid in ids:
+        m = json.load(open(f"/verif/seeded/{sid}/meta.json"))
+        txt = " ; ".join(m.get("caught_by") or [])
+        checks = sorted(set(re.findall(r"\b(C\d\d) [a-z]+\.[a-z-]+", txt))) or [m["property"]]
+        patch = f"/verif/seeded/{sid}/patch.diff"
+        r = subprocess.run(["git", "-C", WT, "apply", patch], capture_output=True, text=True)
+        if r.returncode != 0:
+            print(f"{sid}: patch no longer applies ({r.stderr.strip()[:100]})", flush=True)
+            bad.append((sid, "apply"))
+            continue
+        try:
+            res = {}
+            for c in checks:
+                p = subprocess.run(["/verif/vcheck", c], capture_output=True, text=True, env=env)
+                res[c] = p.returncode
+            ok = any(v == 1 for v in res.values())
+            print(f"{sid}: {res} {'caught' if ok else 'NOT CAUGHT'}", flush=True)
+            if not ok:
+                bad.append((sid, res))
+        finally:
+            subprocess.run(["git", "-C", WT, "checkout", "-q", "--", "."])
+            subprocess.run(["git", "-C", WT, "clean", "-qfd", "--", "."])
+finally:
+    subprocess.run(["git", "-C", "/repo", "worktree", "remove", "--force", WT], capture_output=True)
+    shutil.rmtree(WORK, ignore_errors=True)
+    shutil.rmtree(EV, ignore_errors=True)
 print("not caught:", bad)
